@@ -53,6 +53,7 @@ def setup(ctx):
     ctx.require("monitor", "l2_connections", 20)
     ctx.require("monitor", "connections_after_other_clients", 50)
     ctx.require("monitor", "crowd_returns", 4)
+    ctx.require("monitor", "acl_spelling_connections", 100)
 
 
 class Recorder:
@@ -665,6 +666,58 @@ def run_crowd(ctx):
             close_loop(loop)
 
 
+def run_acl_spellings(ctx):
+    """The deny list names the peer's own address, spelled the way an administrator might (upper-case hex, leading
+    zeros, the uncompressed form, a /128 or /32, a covering block): the chain refuses, and no handler runs - for
+    requests and for uploads, with the access control alone and in front of a limiter."""
+    from nauyaca.server.middleware import AccessControl, AccessControlConfig, MiddlewareChain, RateLimitConfig, RateLimiter
+    from nauyaca.server.protocol import GeminiServerProtocol
+
+    peers6 = {("2001:db8::1", 40001, 0, 0): ["2001:db8::1", "2001:DB8::1", "2001:0db8:0000:0000:0000:0000:0000:0001", "2001:db8:0:0:0:0:0:1", "2001:db8::0001", "2001:db8::1/128", "2001:db8::/64", "2001:DB8::/32"],
+              ("::1", 40002, 0, 0): ["::1", "0:0:0:0:0:0:0:1", "::0001", "0000:0000:0000:0000:0000:0000:0000:0001", "::1/128"],
+              ("198.51.100.23", 40003): ["198.51.100.23", "198.51.100.23/32", "198.51.100.0/24", "198.51.100.16/28"],
+              ("fe80::1%eth0", 40004, 0, 2): ["fe80::1", "FE80::1", "fe80::/10", "fe80:0:0:0:0:0:0:1"]}
+    reqs = [b"gemini://example.org/doc.gmi\r\n", b"titan://example.org/up.txt;size=3;mime=text/plain\r\nabc", b"titan://example.org/up.txt;size=0\r\n"]
+    for peername, entries in peers6.items():
+        for entry in entries:
+            for with_limiter in (False, True):
+                for req in reqs:
+                    loop = new_loop()
+                    try:
+                        log = []
+                        try:
+                            comps = [AccessControl(AccessControlConfig(deny_list=["203.0.113.0/24", entry]))]
+                        except ValueError:
+                            ctx.undecided("acl-spelling-refused-at-construction")
+                            continue
+                        if with_limiter:
+                            comps.append(RateLimiter(RateLimitConfig(capacity=5, refill_rate=1.0)))
+                        chain = MiddlewareChain(comps)
+                        h = SpyHandler({"mode": "sync", "outcome": "value", "status": 20, "meta": "text/gemini", "body": "handled\n"}, log, loop)
+                        up = SpyUpload({"outcome": "value", "status": 20, "meta": "text/gemini", "body": "stored\n"}, log, loop)
+                        sim = ServerSim(lambda: GeminiServerProtocol(h, chain, up), peername=peername, peercert_der=None, loop=loop, log=log)
+                        sim.start()
+                        sim.feed(req)
+                        sim.finish()
+                        stream = bytes(sim.transport.written)
+                        ran = len(h.calls) + len(up.calls)
+                        ctx.count("monitor", "connections")
+                        ctx.count("monitor", "rejected_connections")
+                        ctx.count("monitor", "acl_spelling_connections")
+                        if req.startswith(b"titan"):
+                            ctx.count("monitor", "titan_connections")
+                        wit = {"peer": peername[0], "deny_list_entry": entry, "chain": "access-control" + (" + rate-limit" if with_limiter else ""), "request": req, "stream": stream[:80], "handler_entries": ran}
+                        fam = "v6" if ":" in peername[0] else "v4"
+                        form = "block" if "/" in entry and not entry.endswith(("/128", "/32")) else ("canonical" if entry == peername[0].split("%")[0] else "other-spelling")
+                        if ran:
+                            ctx.violation(f"handler-after-deny:component=acl:entry-spelling={form}:family={fam}", f"the deny list names the peer ({entry!r} covers {peername[0]}), yet a handler ran", wit)
+                        elif not stream.startswith(b"53 "):
+                            ctx.violation(f"wrong-rejection-bytes:component=acl:entry-spelling={form}:family={fam}", f"expected 53, got {stream[:30]!r}", wit)
+                        ctx.case(("acl-spelling", fam, form, with_limiter, req[:5], stream[:2], ran), True, sample=wit)
+                    finally:
+                        close_loop(loop)
+
+
 def chains(ctx, rng):
     out = []
     # all single components, all ordered pairs of a reduced alphabet, sampled triples
@@ -698,6 +751,8 @@ def run(ctx):
             run_cert_twins(ctx)
         if ctx.mine(2) or ctx.nshards == 1:
             run_crowd(ctx)
+        if ctx.mine(3) or ctx.nshards == 1:
+            run_acl_spellings(ctx)
         k = 0
         all_chains = chains(ctx, rng)
         for ci, chain in enumerate(all_chains):
